@@ -4,6 +4,7 @@
 // calling thread via Scope / WithActiveSpan / Attach), several threads in lock step (each with its own
 // thread_local runtime-context stack), and a recording exporter behind a SimpleSpanProcessor.
 // Case and observation format: see coq/C05/Glue.v.
+#include "opentelemetry/sdk/common/global_log_handler.h"
 #include <cmath>
 #include <condition_variable>
 #include <cstring>
@@ -666,5 +667,7 @@ static void run_case(const Toks &t, Out &out)
 
 int main(int argc, char **argv)
 {
+  // the SDK's internal log goes to stdout by default and would corrupt the one-line-per-case protocol
+  opentelemetry::sdk::common::internal_log::GlobalLogHandler::SetLogLevel(opentelemetry::sdk::common::internal_log::LogLevel::None);
   return verif::run_cases(argc, argv, [](const Toks &t, Out &o) { run_case(t, o); });
 }
